@@ -171,7 +171,7 @@ var gvkJobConfig = metav1.GroupVersionKind{Group: "execution.furiko.io", Version
 // boot the controllers.
 func NewWorld(o Options) *World {
 	if o.Start.IsZero() {
-		o.Start = time.Date(2022, 3, 4, 5, 6, 7, 0, time.UTC)
+		o.Start = time.Date(2032, 3, 4, 5, 6, 7, 0, time.UTC)
 	}
 	w := &World{Opts: o, Clock: fakeclock.NewFakeClock(o.Start)}
 	ktime.Clock = w.Clock
@@ -421,7 +421,7 @@ func (w *World) Advance(d time.Duration) {
 	w.Clock.Step(d)
 	if w.Alive {
 		for _, q := range w.Queues() {
-			q.ReleaseArmed()
+			q.ReleaseArmed(w.Clock.Now())
 		}
 	}
 }
